@@ -3088,6 +3088,12 @@ func (c S3ApiController) DeleteObjects(ctx *fiber.Ctx) error {
 				Objects: dObj.Objects,
 			},
 		})
+	var failedKeys []string
+	for _, e := range res.Error {
+		if e.Key != nil {
+			failedKeys = append(failedKeys, *e.Key)
+		}
+	}
 	return SendXMLResponse(ctx, res, err,
 		&MetaOpts{
 			Logger:      c.logger,
@@ -3097,6 +3103,7 @@ func (c S3ApiController) DeleteObjects(ctx *fiber.Ctx) error {
 			BucketOwner: parsedAcl.Owner,
 			EvSender:    c.evSender,
 			EventName:   s3event.EventObjectRemovedDeleteObjects,
+			FailedKeys:  failedKeys,
 		})
 }
 
@@ -3973,6 +3980,8 @@ type MetaOpts struct {
 	ObjectETag    *string
 	VersionId     *string
 	Status        int
+	// FailedKeys: keys of a multi-object delete that were not deleted
+	FailedKeys []string
 }
 
 func SendResponse(ctx *fiber.Ctx, err error, l *MetaOpts) error {
@@ -4009,6 +4018,7 @@ func SendResponse(ctx *fiber.Ctx, err error, l *MetaOpts) error {
 			EventName:   l.EventName,
 			BucketOwner: l.BucketOwner,
 			VersionId:   l.VersionId,
+			FailedKeys:  l.FailedKeys,
 		})
 	}
 
@@ -4092,6 +4102,7 @@ func SendXMLResponse(ctx *fiber.Ctx, resp any, err error, l *MetaOpts) error {
 			ObjectETag:  l.ObjectETag,
 			VersionId:   l.VersionId,
 			EventName:   l.EventName,
+			FailedKeys:  l.FailedKeys,
 		})
 	}
 
